@@ -213,6 +213,7 @@ func checkC05(r *core.Run) {
 	c05Weight(r, p, "R-C05-body")
 	c05MerkleMutation(r, p)
 	c05HeightPush(r, p)
+	blockDiscardTogether(r, p, "R-C05-body")
 	// the per-transaction checks run in goroutines the caller waits for (shared with C11)
 	wgDiscipline(r, p, "R-C05-body", "checkers-counted-before-start", func(path string) bool { return strings.HasSuffix(path, "lib/chain") })
 	// a failed transaction check reported by a worker reaches the caller (the report is a non-blocking send)
